@@ -37,6 +37,7 @@ class Gen:
         self.big = big
         self.log = []
         self.counter = 0
+        self.keep = []      # live handles (open HDF5 ids) at the time of flush()/close()
 
     # ---------------------------------------------------------------- helpers
     def name(self, prefix):
@@ -564,6 +565,19 @@ class Gen:
         del cont[nm]
         return ["delete", what, blk.name, nm]
 
+    def remember(self):
+        """keep a handle on some entity alive (its HDF5 ids stay open until the process dies)"""
+        blk = self.block()
+        if blk is None:
+            return
+        cands = [blk] + self.arrays(blk)[:4] + list(blk.tags)[:2] + self.all_sections(6)
+        self.keep.append(self.pick(cands))
+        for da in self.arrays(blk)[:2]:
+            if self.rng.random() < 0.3:
+                self.keep.append(da._h5group.get_dataset("data"))   # an open dataset id
+        if len(self.keep) > 40:
+            del self.keep[:10]
+
     OPS = [("create_block", 4), ("create_section", 5), ("create_property", 7), ("mod_property", 5),
            ("mod_section", 3), ("create_array", 12), ("append", 14), ("write_slice", 5), ("resize", 2),
            ("dimension", 8), ("create_frame", 2), ("frame_rows", 2), ("create_group", 3), ("group_links", 4),
@@ -581,11 +595,16 @@ class Gen:
         try:
             entry = getattr(self, "op_" + op)()
             self.log.append(entry)
+            if self.rng.random() < 0.3:
+                self.remember()
         except Exception as e:  # refused or failing call: recorded; the file is whatever the call left
             self.log.append(["refused", op, type(e).__name__, str(e)[:80]])
             # keep the random stream independent of where the exception happened
             self.rng.setstate(state)
             self.rng.random()
+
+
+_KEEP = []     # module-level: survives until the kill
 
 
 def _walks(f):
@@ -612,6 +631,8 @@ def run(spec):
             last = i == len(phases) - 1
             out["flush_points"].append(flat2)
             out["ops"] = g.log
+            out["live_handles"] = len(g.keep)
+            _KEEP.append(g.keep)
             if not last:
                 f.flush()
                 # flush is transparent: the in-process view is unchanged by it
